@@ -153,6 +153,11 @@ pub const FAMILIES: &[Family] = &[
     // appended after a round-5 agent's note: a reservation in a bank whose address unit is huge (count x unit overflows)
     Family { name: "bank-bits-then-res", nesting: false, gen: |_, k| format!("#bankdef a\n{{\n    bits = {}\n    outp = 0\n}}\n#res 4\nx:\n", k) },
     Family { name: "bank-bits-then-align", nesting: false, gen: |_, k| format!("#bankdef a\n{{\n    bits = {}\n    outp = 0\n}}\n#align 3\nx:\n#addr 5\ny:\n", k) },
+    // appended after a round-6 agent's notes: overflow / unbounded work in places the other families do not pass through
+    Family { name: "bank-outp-second-bank", nesting: false, gen: |_, k| format!("#bankdef a\n{{\n    addr = 0\n    outp = 0\n}}\n#bankdef b\n{{\n    addr = 0\n    size = 2\n    outp = {}\n}}\n#d8 1\n", k) },
+    Family { name: "addr-then-asm-block", nesting: false, gen: |_, k| format!("#ruledef\n{{\n    nop => 0x00\n    two => asm\n    {{\n        nop\n        nop\n    }}\n}}\n#addr {}\ntwo\n", k) },
+    Family { name: "type-width-le", nesting: false, gen: |_, k| format!("#ruledef\n{{\n    t {{x: u{}}} => le(x)\n}}\nt 1\n", k) },
+    Family { name: "type-width-asm-block", nesting: false, gen: |_, k| format!("#ruledef\n{{\n    e {{v}} => v`8\n    t {{x: u{}}} => asm {{ e {{x}} }}\n}}\nt 1\n", k) },
 ];
 
 pub fn magnitudes() -> Vec<String> {
@@ -301,7 +306,8 @@ impl Property for C19 {
         // time budget is waived there; every other kind of death is still judged.
         let in_range_large = !fam.nesting && mag.parse::<u64>().map(|m| (100_000_000..800_000_000).contains(&m)).unwrap_or(false);
         let outcome = match outcome {
-            Some(o) if in_range_large && (o.starts_with("cpu-limit") || o.starts_with("wall-clock")) => {
+            // (SIGKILL is the HARD CPU limit, one second behind the soft one: under load SIGXCPU can arrive late)
+            Some(o) if in_range_large && (o.starts_with("cpu-limit") || o.starts_with("wall-clock") || o.starts_with("killed")) => {
                 ctx.label("time-budget-waived:in-range-magnitude");
                 None
             }
